@@ -182,8 +182,11 @@ func main() {
 	for _, p := range cfg.Packages {
 		patterns = append(patterns, "./"+p)
 	}
-	pkgs, err := packages.Load(pcfg, patterns...)
-	must(err)
+	var pkgs []*packages.Package
+	if len(patterns) > 0 {
+		pkgs, err = packages.Load(pcfg, patterns...)
+		must(err)
+	}
 	nerr := 0
 	for _, p := range pkgs {
 		for _, e := range p.Errors {
